@@ -120,7 +120,9 @@ def main(c):
                 c.sample({"scenario": s["desc"]})
                 break
     cands = [(sig_of(r, idx[r["scn"]]), r, idx[r["scn"]]) for r in rejects]
-    c.confirm(drv, "c03", specs, "Reports_Trace.tla", "Reports_Trace.cfg", cands, sig_of)
+    # some observations depend on the schedule (input racing the end of start-up, replies racing time-outs):
+    # up to 6 of the rejected scenarios of a signature are re-run, the first that is rejected again is reported
+    c.confirm(drv, "c03", specs, "Reports_Trace.tla", "Reports_Trace.cfg", cands, sig_of, tries=6)
     return c.finish(
         rule="scenario = capability set x (strict stream of legacy/kitty keys, SGR mouse reports with every button byte, focus, "
              "paste brackets with arbitrary content, interleaved replies | robust stream of unsolicited/repeated/truncated/"
